@@ -36,7 +36,7 @@ fn fwd(op: &Op, _ctx: &dyn Context, operands: &mut dyn CoordinateSet) -> usize {
         alpha -= 180.0;
         gamma_c -= 180.0;
     }
-    let ninety = alpha == 90_f64;
+    let ninety = alpha.abs() == 90_f64;
     let alpha = alpha.to_radians();
     gamma_c = gamma_c.to_radians();
 
@@ -63,10 +63,10 @@ fn fwd(op: &Op, _ctx: &dyn Context, operands: &mut dyn CoordinateSet) -> usize {
     let H = F * t0.powf(B);
     let G = (F - 1.0 / F) / 2.0;
     let gamma_0 = (alpha.sin() / D).clamp(-1.0, 1.0).asin();
-    // For alpha = 90, G * tan(gamma_0) is +/-1 by construction. Rounding may take it outside
+    // For alpha = +/-90, G * tan(gamma_0) is +/-1 by construction. Rounding may take it outside
     // of the domain of asin, and asin is ill-conditioned there anyway
     let lambda_0 = if ninety {
-        lonc - FRAC_PI_2.copysign(latc) / B
+        lonc - FRAC_PI_2 * latc.signum() * alpha.signum() / B
     } else {
         lonc - (G * gamma_0.tan()).clamp(-1.0, 1.0).asin() / B
     };
@@ -151,7 +151,7 @@ fn inv(op: &Op, _ctx: &dyn Context, operands: &mut dyn CoordinateSet) -> usize {
         alpha -= 180.0;
         gamma_c -= 180.0;
     }
-    let ninety = alpha == 90_f64;
+    let ninety = alpha.abs() == 90_f64;
     let alpha = alpha.to_radians();
 
     // Discern between Hotine variant A and B cases, and the Laborde
@@ -171,10 +171,10 @@ fn inv(op: &Op, _ctx: &dyn Context, operands: &mut dyn CoordinateSet) -> usize {
     let H = F * t0.powf(B);
     let G = (F - 1.0 / F) / 2.0;
     let gamma_0 = (alpha.sin() / D).clamp(-1.0, 1.0).asin();
-    // For alpha = 90, G * tan(gamma_0) is +/-1 by construction. Rounding may take it outside
+    // For alpha = +/-90, G * tan(gamma_0) is +/-1 by construction. Rounding may take it outside
     // of the domain of asin, and asin is ill-conditioned there anyway
     let lambda_0 = if ninety {
-        lonc - FRAC_PI_2.copysign(latc) / B
+        lonc - FRAC_PI_2 * latc.signum() * alpha.signum() / B
     } else {
         lonc - (G * gamma_0.tan()).clamp(-1.0, 1.0).asin() / B
     };
